@@ -11,8 +11,11 @@ the other tenants' requests removed and compares what each tenant observes.
 * `C10_point_read_is_own`: a point read answers from the caller's own id range and only when the
   stored tenant index is the caller's; `C10_namespace_selector`: a namespace selector never matches
   a document of another namespace;
-* `C10_write_frame_*`: a write / delete / update / batch delete of tenant B leaves every read of a
-  tenant A with another index unchanged (found / not-found included);
+* `C10_write_frame_insert/_delete/_update/_batchDeleteIds/_batchDeleteFilter/_bulkInsert`: a write / delete /
+  update / batch delete (ids or any filter) / BulkInsert stream of tenant B leaves every read of a tenant A with another
+  index unchanged (found / not-found included);
+* `C10_filter_blind_to_reserved`, `C10_reserved_filter_refused_search/_batchDelete`: a client filter naming a
+  server-owned key is refused; any other filter gives the same verdict on the stored and on the public metadata;
 * `C10_search_sound`: every search result is a document of the caller (id range, stored index,
   namespace), public metadata only;
 * `C10_search_isolated_partial`: when the engine is asked for at least as many candidates as there
@@ -197,6 +200,152 @@ theorem C10_write_frame_update (s : S) (a b : Tn) (hab : a.idx ≠ b.idx) (lb : 
         · rfl
         · exact alookup_aset_other gb g _ _ (gid_ne a b hab la lb g gb hg hgb)
 
+/-! ### frame: batch operations of another tenant -/
+
+theorem deleteMany_docs (s : S) (gs : List Nat) (j : Nat) (h : j ∉ gs) :
+    alookup j (deleteMany s gs).1.docs = alookup j s.docs := by
+  induction gs generalizing s with
+  | nil => rfl
+  | cons g rest ih =>
+    simp only [List.mem_cons, not_or] at h
+    unfold deleteMany
+    split
+    · simp only
+      rw [ih _ h.2]
+      exact alookup_aerase_ne g j _ h.1
+    · exact ih s h.2
+
+/-- **BatchDelete by ids of B never changes a read of A** -/
+theorem C10_write_frame_batchDeleteIds (s : S) (a b : Tn) (hab : a.idx ≠ b.idx) (lids : List Nat)
+    (nsb : String) (la : Nat) (ns : String) :
+    readDoc (Srv.batchDeleteIds s b lids nsb).1 a la ns = readDoc s a la ns := by
+  apply readDoc_congr
+  intro g hg
+  unfold Srv.batchDeleteIds
+  split
+  · rfl
+  · simp only
+    rw [noteDeletes_docs, decCount_docs]
+    apply deleteMany_docs
+    intro hm
+    simp only [List.mem_filter, List.mem_filterMap] at hm
+    obtain ⟨⟨l, _, hl⟩, _⟩ := hm
+    exact gid_ne a b hab la l g g hg hl rfl
+
+/-- **BatchDelete by filter of B never changes a read of A** (unique global ids; the two tenants'
+    index texts differ): whatever the filter — NOT / OR forms, reserved keys — it is evaluated under
+    the conjunction with B's own index, and a document A can read carries A's index. -/
+theorem C10_write_frame_batchDeleteFilter (parse : String → Option Nat) (s : S) (a b : Tn)
+    (hab : a.idxStr ≠ b.idxStr) (hk : Keys s.docs) (f : Filter) (nsb : String) (la : Nat) (ns : String) :
+    readDoc (Srv.batchDeleteFilter parse s b f nsb).1 a la ns = readDoc s a la ns := by
+  unfold Srv.batchDeleteFilter
+  split
+  · rfl
+  simp only
+  unfold readDoc
+  split
+  · rfl
+  · rename_i g hg
+    rw [noteDeletes_docs, decCount_docs]
+    by_cases hm : g ∈ (s.docs.filter fun p => visible b nsb p.2.md && matchesF parse f p.2.md).map (·.1)
+    · -- the document under g is B's: A could not read it before, and cannot after
+      obtain ⟨p, hp, hpg⟩ := List.mem_map.mp hm
+      simp only [List.mem_filter, Bool.and_eq_true] at hp
+      have hl : alookup g s.docs = some p.2 := by
+        have : ∀ (l : List (Nat × Doc)), Keys l → p ∈ l → alookup p.1 l = some p.2 := by
+          intro l
+          induction l with
+          | nil => intro _ h; cases h
+          | cons q rest ih =>
+            obtain ⟨k, v⟩ := q
+            intro hk hm
+            unfold Keys at hk
+            rw [List.map_cons, List.nodup_cons] at hk
+            rcases List.mem_cons.mp hm with e | hm
+            · rw [e]; simp
+            · have : k ≠ p.1 := fun e => hk.1 (e ▸ List.mem_map.mpr ⟨p, hm, rfl⟩)
+              simp only [alookup_cons, this, if_false]
+              exact ih hk.2 hm
+        rw [← hpg]; exact this _ hk hp.1
+      have hvb : mget p.2.md kTenantIdx = some b.idxStr := by
+        have := hp.2.1
+        simp only [visible, Bool.and_eq_true, beq_iff_eq] at this
+        exact this.1
+      have hva : visible a ns p.2.md = false := by
+        simp only [visible, hvb, Bool.and_eq_false_iff, beq_eq_false_iff_ne, ne_eq, Option.some.injEq]
+        exact Or.inl (fun e => hab e.symm)
+      rw [hl]
+      simp only [hva]
+      -- after the delete: whatever is (not) stored under g, A does not see B's document
+      cases hafter : alookup g (deleteMany s _).1.docs with
+      | none => rfl
+      | some d =>
+        -- nothing can be stored under g any more
+        exfalso
+        have : ∀ (gs : List Nat) (s : S), g ∈ gs → alookup g (deleteMany s gs).1.docs = none := by
+          intro gs
+          induction gs with
+          | nil => intro _ h; cases h
+          | cons x rest ih =>
+            intro s hx
+            unfold deleteMany
+            by_cases e : x = g
+            · subst e
+              split
+              · simp only
+                by_cases hr : x ∈ rest
+                · exact ih _ hr
+                · rw [deleteMany_docs _ _ _ hr]; exact alookup_aerase_self x _
+              · rename_i hn
+                by_cases hr : x ∈ rest
+                · exact ih _ hr
+                · rw [deleteMany_docs _ _ _ hr]
+                  simpa using hn
+            · have hr : g ∈ rest := by
+                rcases List.mem_cons.mp hx with h | h
+                · exact (e h.symm).elim
+                · exact h
+              split
+              · exact ih _ hr
+              · exact ih _ hr
+        rw [this _ s hm] at hafter
+        cases hafter
+    · rw [deleteMany_docs _ _ _ hm]
+
+/-- **BulkInsert of B never changes a read of A** -/
+theorem C10_write_frame_bulkInsert (s : S) (a b : Tn) (hab : a.idx ≠ b.idx) (items : List Item)
+    (la : Nat) (ns : String) : readDoc (Srv.bulkInsert s b items).1 a la ns = readDoc s a la ns := by
+  induction items generalizing s with
+  | nil => rfl
+  | cons it rest ih =>
+    unfold Srv.bulkInsert
+    simp only
+    have h1 := C10_write_frame_insert s a b hab it.lid it.vec it.md it.ns la ns
+    have h2 := ih (Srv.insert s b it.lid it.vec it.md it.ns).1
+    split <;> simp only <;> rw [h2, h1]
+
+/-! ### client filters -/
+
+/-- **Client filters cannot see the server-owned keys**: a filter that reaches the evaluation names
+    none of them (one that does is refused), and such a filter gives the same verdict on the stored
+    metadata as on the public metadata the client can read back. -/
+theorem C10_filter_blind_to_reserved (parse : String → Option Nat) (f : Filter) (md : Meta)
+    (h : mentionsReserved f = false) : matchesF parse f (strip md) = matchesF parse f md :=
+  matchesF_strip parse f md h
+
+theorem C10_reserved_filter_refused_search (parse : String → Option Nat) (s : S) (t : Tn) (rank : List Nat)
+    (k : Nat) (ns : String) (f : Filter) (h : mentionsReserved f = true) :
+    ∃ e, search parse s t rank k ns (some f) = .error e := by
+  unfold search
+  split
+  · exact ⟨_, rfl⟩
+  · simp [h]
+
+theorem C10_reserved_filter_refused_batchDelete (parse : String → Option Nat) (s : S) (t : Tn) (f : Filter)
+    (ns : String) (h : mentionsReserved f = true) :
+    Srv.batchDeleteFilter parse s t f ns = (s, .error .invalidArgument) := by
+  simp [Srv.batchDeleteFilter, h]
+
 /-! ### search -/
 
 /-- **Every search result is the caller's**: own id range, stored index the caller's, the requested
@@ -210,6 +359,8 @@ theorem C10_search_sound (parse : String → Option Nat) (s : S) (t : Tn) (rank 
   split at h
   · cases h
   · rename_i plan _
+    split at h
+    · cases h
     simp only [Except.ok.injEq, Prod.mk.injEq] at h
     rw [← h.2] at hr
     have hm := List.mem_of_mem_take hr
@@ -253,6 +404,8 @@ theorem C10_search_isolated_partial (parse : String → Option Nat) (s : S) (t :
   split
   · rfl
   · rename_i plan hp
+    split
+    · rfl
     have h1 : rank.take plan.searchK = rank := List.take_of_length_le (hwin plan hp)
     have h2 : (rank.filter (ownsGid t)).take plan.searchK = rank.filter (ownsGid t) :=
       List.take_of_length_le (Nat.le_trans (List.length_filter_le _ _) (hwin plan hp))
